@@ -6,7 +6,7 @@ import random
 from . import common, compat, protocommon as PC
 from .common import Report
 
-CLAUSES = {"probe_opens_iff_valid", "probe_model_checks_eq_valid"}
+CLAUSES = {"probe_opens_iff_valid", "probe_model_checks_eq_valid", "built_record_is_valid"}
 
 
 def run(tier: str) -> int:
